@@ -9,6 +9,7 @@ From SV Require Import KV.KvBase KV.KvLex KV.KvParse KV.KvSym KV.KvRoundtrip.
 From SV Require Import Fmt.VmfText Fmt.VmfTextProofs Fmt.VmfBlocks Fmt.VmfBlocksProofs Fmt.VmfFields Fmt.VmfFieldsProofs.
 From SV Require Import Fmt.VmfNum Fmt.VmfNumProofs Fmt.VmfGuard Fmt.VmfGuardProofs.
 From SV Require Import Fmt.VmfLite Fmt.VmfLiteProofs Fmt.VmfFlags Fmt.VmfFlagsProofs Fmt.VmfTok Fmt.VmfTokProofs Fmt.VmfPlane Fmt.VmfPlaneProofs.
+From SV Require Import Fmt.VmfIds Fmt.VmfIdsProofs.
 From SV Require Import Gen.VmfTemplates_gen Gen.VmfKeys_gen Gen.VmfDispSizes_gen Gen.VmfOrder_gen Gen.VmfProg_gen Gen.VmfFieldsCfg_gen Gen.VmfNumFmt_gen Gen.VmfLite_gen Gen.VmfFlags_gen.
 Import ListNotations.
 
@@ -308,3 +309,29 @@ Theorem c06_plane_text_roundtrip : forall a b c, no_paren a = true -> no_paren b
 Proof. exact plane_text_roundtrip. Qed.
 Theorem c06_plane_paren_in_part_refuted : plane_parse (plane_text [49; 41; 32; 40; 50] [51] [52])%N = None.
 Proof. exact plane_paren_in_part_refuted. Qed.
+
+(** 14. IDs are preserved when asked (round 4).  Gen/VmfIds_gen.v holds, read from vmf.py: the class every ID-manager
+    attribute of a VMF gets under preserve_ids and otherwise (VMF.__init__ executed in both worlds), the get_id method of
+    each such class as a decision list over the requested ID (one entry per path; comparisons with constants, and one
+    opaque condition whose outcome the obligations quantify over), and the constructor sites that ask a manager.
+    A decision list that passes [nid_ok] hands back every natural number it is asked for; one that fails it renumbers some
+    natural number; [kind_ok] is the obligation per kind of ID (entity, solid, face, group, visgroup, node). *)
+Theorem c06_preserving_manager_keeps_every_id : forall p, nid_ok p = true -> forall d o, (0 <= d)%Z -> id_get p o d = AKeep.
+Proof. exact nid_ok_sound. Qed.
+Theorem c06_manager_check_is_complete : forall p, nid_ok p = false -> exists d o, (0 <= d)%Z /\ id_get p o d = AOther.
+Proof. exact nid_ok_complete. Qed.
+Theorem c06_manager_comparisons_meaning : forall o d c k, guard_le o (le_of d) (GCmp c k) = cmp_sem c d k.
+Proof. exact guard_le_cmp. Qed.
+Theorem c06_ids_preserved_per_kind : forall classes mans sites attr, kind_ok classes mans sites attr = true ->
+  exists m p, In m mans /\ im_attr m = attr /\ assoc_s (im_preserve m) classes = Some p /\
+    (forall d o, (0 <= d)%Z -> id_get p o d = AKeep) /\
+    (exists s, In s sites /\ is_manager s = attr) /\
+    (forall s, In s sites -> is_manager s = attr -> is_stores_result s = true).
+Proof. exact kind_ok_sound. Qed.
+Theorem c06_manager_positive_only_refuted : nid_ok ex_positive_only = false /\ id_get ex_positive_only true 0 = AOther /\
+  id_get ex_positive_only true 1 = AKeep.
+Proof. exact positive_only_refuted. Qed.
+Theorem c06_ordinary_manager_not_preserving : nid_ok ex_idman = false /\ id_get ex_idman true 5 = AOther /\ id_get ex_idman false 5 = AKeep.
+Proof. exact idman_not_preserving. Qed.
+Example c06_null_manager_example : nid_ok ex_nullid = true /\ id_get ex_nullid true 0 = AKeep /\ id_get ex_nullid true (-1) = AOther.
+Proof. exact ex_nullid_ok. Qed.
